@@ -286,7 +286,17 @@ def run_group(group, repo='/repo', outdir=None, seed=0, rlimit=None, extra_args=
         if u.get('lost_anchors'):
             why.append('proof aid could not be placed: ' + '; '.join(u['lost_anchors'][:3]))
         if u.get('dropped_aids'):
-            why.append('proof aid dropped (no longer type-checks): ' + '; '.join(map(str, u['dropped_aids'][:3])))
+            # an instance dropped from a closure the unchanged tree does not have (same parameter text, new closure) leaves the original
+            # proof script complete: only drops that reduce the number of fitted instances below the recorded count compromise the unit
+            import collections
+            try:
+                expected = json.load(open(os.path.join(VERIF, 'contracts', 'aid_counts.json'))).get(u['unit'], {})
+            except Exception:
+                expected = {}
+            fitted = collections.Counter(re.sub(r'#\d+$', '', a_[0]) for a_ in u.get('aids', []))
+            short = [d_ for d_ in u['dropped_aids'] if fitted.get(re.sub(r'#\d+$', '', str(d_)), 0) < expected.get(re.sub(r'#\d+$', '', str(d_)), 1 << 30)]
+            if short:
+                why.append('proof aid dropped (no longer type-checks): ' + '; '.join(map(str, short[:3])))
         if u['unit'] in bare:
             why.append('all proof aids dropped')
         if u['unit'] in nodecr:
